@@ -145,4 +145,11 @@ def r16_5_scope(repo: Repo, rep: Report):
                     rep.bad("R16.5", m2, st, src(st)[:80], "module-level unsat-core store")
 
 
-RULES = [r16_1_core_recording, r16_2_subset_test, r16_3_ids_equal_asserted, r16_4_id_stability, r16_5_scope]
+def r16_6_encoding(repo: Repo, rep: Report):
+    from hsa.rules.c11 import r11_3_dump_writer_reader
+
+    rep.rule("R11.3", "named-assertion encoding written exactly when assertions were tracked; reader recovers the writer's ids (shared with C11)")
+    r11_3_dump_writer_reader(repo, rep)
+
+
+RULES = [r16_6_encoding, r16_1_core_recording, r16_2_subset_test, r16_3_ids_equal_asserted, r16_4_id_stability, r16_5_scope]
